@@ -34,6 +34,7 @@ type TierCfg struct {
 	MaxMake    int               `json:"max_make"`
 	CrossCheck bool              `json:"cross_check"`
 	Skip       bool              `json:"skip"`
+	GoPolicy   string            `json:"go_policy"`
 }
 
 type HarnessCfg struct {
@@ -167,7 +168,7 @@ func main() {
 						solvers[0].Log = f
 					}
 				}
-				ro := sym.RunOpts{Rounds: tc.Rounds, TimeoutMs: tc.TimeoutMs, CrossCheck: tc.CrossCheck}
+				ro := sym.RunOpts{GoPolicy: tc.GoPolicy, Rounds: tc.Rounds, TimeoutMs: tc.TimeoutMs, CrossCheck: tc.CrossCheck}
 				if ro.TimeoutMs == 0 {
 					ro.TimeoutMs = 120000
 				}
